@@ -285,6 +285,7 @@ static void do_cmd(HS* s, char* line)
     s->errors += e;
     free(src);
   }
+  else if (!strcmp(c, "strictescape")) { s->compiler->strict_escape = true; fprintf(o, "strictescape\n"); }   // what yara -E sets
   else if (!strcmp(c, "diskdir"))
   {
     // a fresh directory on disk becomes the working directory of this case (files for the DEFAULT include callback)
@@ -429,10 +430,16 @@ static void do_cmd(HS* s, char* line)
   else if (!strcmp(c, "scan"))      // scanner-level scan of one buffer
   {
     uint8_t* b = h_unhex(tok(&p), &len);
+    // the scanned bytes sit between two alphanumeric guard characters ("A\0" on both sides, which is also a wide 'A'): a test that looks
+    // one or two bytes before or after the data (fullword delimiters, word boundaries) sees a word character there, not the NUL that
+    // usually follows a C string, so an off-by-one in such a test changes the result instead of going unnoticed
+    uint8_t* g = (uint8_t*) malloc(len + 4);
+    g[0] = 'A'; g[1] = 0; memcpy(g + 2, b, len); g[len + 2] = 'A'; g[len + 3] = 0;
     s->msg_index = 0;
     fprintf(o, "scan msgs=");
-    int rc = yr_scanner_scan_mem(s->scanner[s->cur], b, len);
+    int rc = yr_scanner_scan_mem(s->scanner[s->cur], g + 2, len);
     fprintf(o, " rc=%d\n", rc);
+    free(g);
     free(b);
   }
   else if (!strcmp(c, "rscan"))     // rules-level: rscan <flags> <timeout> <hex>
